@@ -269,6 +269,14 @@ def strip_expect(s):
     return {k: v for k, v in s.items() if k != "expect"}
 
 
+def tls_twin(s, mode):
+    """the same script with the client on a wss:// URL behind the TLS-terminating relay of retry_sim (mode "pre": a stalled
+    attempt stalls inside the TLS handshake; "post": after it).  The specification does not distinguish the transports."""
+    t = json.loads(json.dumps(s))
+    t["tls"] = mode
+    return t
+
+
 def run_scripts(bins, scripts, work, par, tag):
     """run the scripts on the real client; returns list of traces (each a list of lines) in script order"""
     bin_path = os.path.join(bins, "retry_sim")
@@ -408,6 +416,10 @@ def part_b(prop, T, tier, seed, bins, work, replay=None):
             pool = [s for s in cases if canon(s) not in keys and est_seconds(s) <= 4.0 and len(s["steps"]) >= 3]
             for s in rng.sample(pool, min(2, len(pool))):
                 chosen.append(s)
+            # the production transport is wss://: the same scripts behind a TLS-terminating relay
+            by_feat = {ft: [s for s in cases if ft in feat(s)][0] for ft in ("stall_give_up", "stall_then_healthy", "orderly_close")}
+            chosen += [tls_twin(by_feat["stall_give_up"], "pre"), tls_twin(by_feat["stall_give_up"], "post"),
+                       tls_twin(by_feat["stall_then_healthy"], "pre"), tls_twin(by_feat["orderly_close"], "post")]
             scripts = chosen
         else:
             sim_cases, sim_states = b_simulate(int(seed) * 31 + 7, T["sim"])
@@ -438,6 +450,11 @@ def part_b(prop, T, tier, seed, bins, work, replay=None):
                 sample.append(s)
                 used += c
             scripts = must + take_long + sample
+            twins = [tls_twin(s, rng.choice(["pre", "post"])) for s in must + sample
+                     if all(x["beh"] != "down" for x in s["steps"]) and (feat(s) or rng.random() < 0.2)]
+            scripts += twins
+            used += sum(est_seconds(s) + 0.4 for s in twins)
+            log(f"[B plan] + {len(twins)} of them once more over wss:// behind a TLS-terminating relay")
             log(f"[B plan] {len(cases) + len(rcases)} scripts enumerated; running {len(must)} (every script of at most 2 attempts, "
                 f"the feature scripts, the long-interval set) + {len(sample)} sampled with seed {seed} + {len(take_long)} random long ones; "
                 f"expected {used / T['b_par']:.0f}s with {T['b_par']} scripts in parallel")
